@@ -14,6 +14,7 @@ import (
 	"math/rand"
 	"net"
 	"os"
+	"regexp"
 	"runtime/debug"
 	"sort"
 	"strings"
@@ -118,10 +119,10 @@ type Cfg struct {
 	// element of the framing namespace that is not <open/>, carrying the
 	// attributes of a header.  Such an element is not a stream header.
 	SkipForm string `json:"peer_sends_instead_of_header,omitempty"`
-	Reps       int        `json:"repetitions"`
-	Tee        bool       `json:"tee,omitempty"` // StreamConfig.TeeIn/TeeOut are set
-	Dyn        bool       `json:"dynamic_config,omitempty"`
-	Profile    int        `json:"profile,omitempty"` // which configuration profile this session has (0-2)
+	Reps     int    `json:"repetitions"`
+	Tee      bool   `json:"tee,omitempty"` // StreamConfig.TeeIn/TeeOut are set
+	Dyn      bool   `json:"dynamic_config,omitempty"`
+	Profile  int    `json:"profile,omitempty"` // which configuration profile this session has (0-2)
 }
 
 // Group is a whole case: 1-4 sessions that share ONE xmpp.Negotiator value, one
@@ -282,6 +283,17 @@ func genSession(r *rand.Rand, role string, ws, tee bool, feats []Feat) *Cfg {
 			c.SkipHeader = 1 + r.Intn(2)
 			c.SkipForm = []string{"framing-close", "framing-other"}[r.Intn(2)]
 		}
+		if r.Intn(12) == 0 {
+			forms := []string{"incomplete-noversion"}
+			if c.Role == "initiator" {
+				forms = append(forms, "incomplete-noid")
+			}
+			if !c.WS {
+				forms = append(forms, "incomplete-noxmlns")
+			}
+			c.SkipHeader = 1 + r.Intn(2)
+			c.SkipForm = forms[r.Intn(len(forms))]
+		}
 		return c
 	}
 	for i, m := 0, 1+r.Intn(5); i < m; i++ {
@@ -319,6 +331,17 @@ func genSession(r *rand.Rand, role string, ws, tee bool, feats []Feat) *Cfg {
 	if c.WS && r.Intn(10) == 0 {
 		c.SkipHeader = 1 + r.Intn(2)
 		c.SkipForm = []string{"framing-close", "framing-other"}[r.Intn(2)]
+	}
+	if r.Intn(12) == 0 {
+		forms := []string{"incomplete-noversion"}
+		if c.Role == "initiator" {
+			forms = append(forms, "incomplete-noid")
+		}
+		if !c.WS {
+			forms = append(forms, "incomplete-noxmlns")
+		}
+		c.SkipHeader = 1 + r.Intn(2)
+		c.SkipForm = forms[r.Intn(len(forms))]
 	}
 	return c
 }
@@ -1134,6 +1157,21 @@ func (e *exec) peerHeader() string {
 
 // notAHeader is what the peer sends in place of an omitted restart header.
 func (e *exec) notAHeader() string {
+	if strings.HasPrefix(e.cfg.SkipForm, "incomplete-") {
+		// a restart header that lacks something every header has to have (and
+		// that the header of the previous stream had): not a fresh stream header
+		h := e.peerHeader()
+		e.nPeerHdr--
+		e.c.Count("peer_sent_incomplete_restart_header", 1)
+		switch e.cfg.SkipForm {
+		case "incomplete-noversion":
+			return strings.Replace(h, " version='1.0' id='", " id='", 1) // (not the XML declaration's)
+		case "incomplete-noid":
+			return strings.Replace(h, fmt.Sprintf(" id='peer%d'", e.nPeerHdr+1), "", 1)
+		default: // incomplete-noxmlns (TCP framing)
+			return regexp.MustCompile(` xmlns='jabber:(client|server)'`).ReplaceAllString(h, "")
+		}
+	}
 	if e.cfg.SkipForm == "" || !e.cfg.WS {
 		return ""
 	}
